@@ -4,6 +4,7 @@ import (
 	"context"
 	"fmt"
 	"math/big"
+	"os"
 	"sync"
 	"testing"
 	"time"
@@ -112,7 +113,7 @@ func c06Gen(rt *rapid.T) c06Case {
 	if rapid.IntRange(0, 3).Draw(rt, "restart") == 0 {
 		c.RestartAt = rapid.IntRange(5, 150).Draw(rt, "restartAt")
 	}
-	if rapid.IntRange(0, 3).Draw(rt, "followSafeBlock") == 0 {
+	if rapid.IntRange(0, 3).Draw(rt, "followSafeBlock") == 0 || os.Getenv("VERIF_C06_FORCE_SAFE") != "" {
 		c.Safe, c.SafeLag = true, rapid.IntRange(0, 3).Draw(rt, "safeLag")
 	}
 	return c
